@@ -1,6 +1,6 @@
 (* C08 — only what lies inside the horizon and inside an asset's window matters. *)
 From Coq Require Import QArith ZArith List String Bool Lia.
-From EAO Require Import Num LP Mapping Grid Assets Portfolio Inert.
+From EAO Require Import Num LP Mapping Grid GridProofs Assets Portfolio Inert.
 Import ListNotations.
 Open Scope Q_scope.
 
@@ -109,6 +109,19 @@ Theorem C08_free_variable_inert :
   optimal (lp_sum P (free_var c0)) (x ++ [v]) /\ value (lp_sum P (free_var c0)) (x ++ [v]) == value P x.
 Proof. exact free_variable_inert. Qed.
 Print Assumptions C08_free_variable_inert.
+
+(* a horizon that begins earlier: for a window lying behind the added points, the steps selected are the old ones (their indices
+   shifted by the number of added points) and so are their time points - what the harness checks as "horizon extension" on the
+   implementation (value unchanged, no dispatch in the added steps) *)
+Theorem C08_earlier_horizon_keeps_window :
+  forall pre g s e, g_pts g <> [] -> (forall p, In p pre -> (p < s)%Z) ->
+  restrict_I (prepend pre g) s e = map (Nat.add (List.length pre)) (restrict_I g s e) /\
+  pick 0%Z (g_pts (prepend pre g)) (restrict_I (prepend pre g) s e) = pick 0%Z (g_pts g) (restrict_I g s e).
+Proof. intros pre g s e H1 H2. split; [exact (restrict_I_prepend pre g s e H1 H2)|exact (restrict_tp_prepend pre g s e H1 H2)]. Qed.
+Print Assumptions C08_earlier_horizon_keeps_window.
+Example C08_earlier_horizon_nonvacuous :
+  restrict_I (prepend [-7200; -3600]%Z (Build_grid [0; 3600; 7200; 10800]%Z 0 10800 3600)) 3600 10800 = [3; 4]%nat.
+Proof. vm_compute. reflexivity. Qed.
 
 (* non-vacuity: hourly grid of 3 steps; window [1h, 2h) selects step 1; an order after the horizon is outside *)
 Definition exg : grid := Build_grid [0; 3600; 7200; 10800]%Z 0 10800 3600.
